@@ -281,6 +281,14 @@ fn check_cell(method: &str, status: u16, v11: bool, cl: Option<&str>, te: Option
         }
         return (fails, format!("{}|{}|100|{}", method, v11, ctx));
     }
+    // after an interim 103: an implementation may also refuse to look at a second head on the same object
+    // (no property speaks about that); the cell then decides nothing. It decides when the head IS taken.
+    if ctx == "after-103" && want != Framing::Error {
+        let declined = |s: &Seen| matches!(s, Seen::Error(_)) || matches!(s, Seen::Other(o) if o.starts_with("interim 103 not handed out") || o.starts_with("consumed 0") || o.starts_with("no response"));
+        if declined(&fseen) && declined(&cseen) {
+            return (fails, format!("{}|after-103-declined", method));
+        }
+    }
     // flow: successor state + mode
     let flow_ok = match (&fseen, want_after) {
         (Seen::Error(_), After::Error) => true,
